@@ -411,4 +411,131 @@ def PState.step (v : PVariant) (pred : Nat → Bool) (s : PState) : PStep → PS
 def PState.run (v : PVariant) (pred : Nat → Bool) (s : PState) (steps : List PStep) : PState :=
   steps.foldl (PState.step v pred) s
 
+/-! ### the poller's sleep schedule (`periodicEval`, the part around `evalValue_ = fn_()`)
+
+    unsigned int count = 1;
+    time::duration s = time::seconds(period_);
+    if (period_ > 0.001) { count = 0.5 + period_ / 0.001;  s = time::seconds(period_ / (double)count); }
+    while (!terminate_ && !signalThreadStop_)
+    {   evalValue_ = fn_();
+        for (unsigned int i = 0; i < count; ++i)
+        {   if (terminate_ || signalThreadStop_) break;
+            std::this_thread::sleep_for(s);  }  }
+
+`napPlan` is the first three lines, one definition run at `Float` by the driver (the harness interposes
+`nanosleep` and reports how many sleeps of which length the poller thread made between two invocations of
+its predicate) and proved about at `ℚ` (Proofs/PtcNapQ.lean).  `TState` is the loop with one step per
+action of the poller thread and a virtual clock that only the poller's sleeps advance. -/
+
+/-- numbers with the two conversions `periodicEval` and `time::seconds` use -/
+class PTrunc (α : Type) extends PNum α where
+  /-- `(long)x` -/
+  trunc : α → Int
+  /-- `(double)n` -/
+  ofInt : Int → α
+
+instance : PTrunc Float where
+  trunc := toLongX86
+  ofInt := Float.ofInt
+
+/-- `time::seconds(sec)` in the clock's nanoseconds, for a duration well inside the clock's range (no 64-bit
+wrap: the durations `periodicEval` converts are at most the period; cf. `secondsToNs`, which has the wraps
+and is what the driver cross-checks this against at `Float`):
+`s = (long)sec; us = (long)((sec - (double)s) * 1000000); return seconds(s) + microseconds(us);` -/
+def secondsNs {α} [PTrunc α] (sec : α) : Int :=
+  let s := PTrunc.trunc sec
+  let us := PTrunc.trunc ((sec - PTrunc.ofInt s) * PNum.ofNat 1000000)
+  (s * 1000000 + us) * 1000
+
+/-- what the poller does between two calls of the predicate: `count` sleeps of `nap` nanoseconds each -/
+structure NapPlan where
+  count : Nat
+  nap : Int
+deriving Repr, DecidableEq
+
+/-- the literal `0.001` (`1.0 / 1000.0` is correctly rounded, hence the same double as the literal) -/
+def milli {α} [PNum α] : α := PNum.ofNat 1 / PNum.ofNat 1000
+
+/-- the literal `0.5` -/
+def half {α} [PNum α] : α := PNum.ofNat 1 / PNum.ofNat 2
+
+/-- `count` and `s` of `periodicEval`, for a period the thread is started with (`period_ > 0`).  The
+`double → unsigned int` conversion keeps the low 32 bits of the 64-bit truncation (x86-64; it is only
+defined by the language below 2^32, i.e. for periods below 49 days). -/
+def napPlan {α} [PTrunc α] (period : α) : NapPlan :=
+  if (milli : α) < period then
+    let count := ((PTrunc.trunc ((half : α) + period / milli)) % 4294967296).toNat
+    ⟨count, secondsNs (period / PNum.ofNat count)⟩
+  else ⟨1, secondsNs period⟩
+
+inductive TPc where
+  | outer                -- about to test `!terminate_ && !signalThreadStop_`
+  | call                 -- about to call the predicate
+  | store                -- the predicate has returned `pending`; about to write the cache
+  | inner (i : Nat)      -- about to test `i < count`, then the stop flags
+  | nap (i : Nat)        -- about to `sleep_for(s)`
+  | done                 -- the thread has left `periodicEval`
+deriving Repr, DecidableEq
+
+inductive TStep where
+  | poller               -- the poller thread performs its next action
+  | terminate | destroy  -- `terminate()`, `signalThreadStop_ = true` from another thread
+  | eval                 -- an evaluation from another thread
+deriving Repr, DecidableEq
+
+structure TState where
+  term : Bool := false
+  stop : Bool := false
+  cache : Bool := false
+  pending : Bool := false
+  pc : TPc := .outer
+  now : Nat := 0              -- virtual time (ns): the sum of the poller's sleeps
+  lastCall : Nat := 0         -- time of the most recent call of the predicate
+  cacheAt : Option Nat := none   -- ghost: time of the call whose result is in the cache
+  calls : Nat := 0
+  naps : Nat := 0             -- `nanosleep` calls since the most recent call of the predicate
+  lastGap : Nat := 0          -- `nanosleep` calls between the two most recent calls of the predicate
+  req : Bool := false         -- ghost: terminate() or destruction has been requested
+  napsAfterReq : Nat := 0     -- ghost: sleeps started after the request
+  callsAfterReq : Nat := 0    -- ghost: predicate calls started after the request
+  results : List (Nat × Bool) := []   -- evaluations, newest first: (time, answer)
+deriving Repr
+
+/-- `pred t`: what the predicate answers when called at time `t`.  `nap = 0` is `sleep_for` of a non-positive
+duration: it returns at once without calling `nanosleep`. -/
+def TState.step (count nap : Nat) (pred : Nat → Bool) (s : TState) : TStep → TState
+  | .poller =>
+    match s.pc with
+    | .outer => { s with pc := if s.term || s.stop then .done else .call }
+    | .call => { s with pending := pred s.now, lastCall := s.now, calls := s.calls + 1, lastGap := s.naps, naps := 0,
+                        callsAfterReq := if s.req then s.callsAfterReq + 1 else s.callsAfterReq, pc := .store }
+    | .store => { s with cache := s.pending, cacheAt := some s.lastCall, pc := .inner 0 }
+    | .inner i =>
+      if i < count then
+        if s.term || s.stop then { s with pc := .outer } else { s with pc := .nap i }
+      else { s with pc := .outer }
+    | .nap i => { s with now := s.now + nap, naps := if 0 < nap then s.naps + 1 else s.naps,
+                         napsAfterReq := if s.req then s.napsAfterReq + 1 else s.napsAfterReq, pc := .inner (i + 1) }
+    | .done => s
+  | .terminate => { s with term := true, req := true }
+  | .destroy => { s with stop := true, req := true }
+  | .eval => { s with results := (s.now, s.term || s.cache) :: s.results }
+
+def TState.run (count nap : Nat) (pred : Nat → Bool) (s : TState) (steps : List TStep) : TState :=
+  steps.foldl (TState.step count nap pred) s
+
+/-- the poller runs alone until it is inside its `k`-th call of the predicate (what the harness's gate holds
+it at); `fuel` bounds the number of steps -/
+def TState.untilCall (count nap : Nat) (pred : Nat → Bool) (k : Nat) : Nat → TState → TState
+  | 0, s => s
+  | fuel + 1, s =>
+    if s.calls = k ∧ s.pc = .store then s
+    else if s.pc = .done then s
+    else TState.untilCall count nap pred k fuel (s.step count nap pred .poller)
+
+/-- the poller runs alone until it has left its loop -/
+def TState.untilDone (count nap : Nat) (pred : Nat → Bool) : Nat → TState → TState
+  | 0, s => s
+  | fuel + 1, s => if s.pc = .done then s else TState.untilDone count nap pred fuel (s.step count nap pred .poller)
+
 end OmplModel.Ptc
